@@ -18,7 +18,7 @@
 #include <math.h>
 #include "sim.h"
 
-#if defined(__SANITIZE_ADDRESS__)
+#if defined(__SANITIZE_ADDRESS__) || defined(SIM_ASAN_BUILD)
 #include <sanitizer/common_interface_defs.h>
 #define SIM_ASAN 1
 #endif
